@@ -1868,6 +1868,19 @@ hwloc__xml_import_diff(hwloc__xml_import_state_t state,
  ********* main XML import *********
  ***********************************/
 
+/* the core requires at least one PU below the root */
+static int
+hwloc__xml_tree_has_pu(hwloc_obj_t obj)
+{
+  hwloc_obj_t child;
+  if (obj->type == HWLOC_OBJ_PU)
+    return 1;
+  for(child = obj->first_child; child; child = child->next_sibling)
+    if (hwloc__xml_tree_has_pu(child))
+      return 1;
+  return 0;
+}
+
 /* this canNOT be the first XML call */
 static int
 hwloc_look_xml(struct hwloc_backend *backend, struct hwloc_disc_status *dstatus)
@@ -1983,6 +1996,12 @@ done:
   if (!root->cpuset) {
     if (hwloc__xml_verbose())
       fprintf(stderr, "%s: invalid root object without cpuset\n",
+	      data->msgprefix);
+    goto err;
+  }
+  if (!hwloc__xml_tree_has_pu(root)) {
+    if (hwloc__xml_verbose())
+      fprintf(stderr, "%s: invalid topology without any PU object\n",
 	      data->msgprefix);
     goto err;
   }
